@@ -1,6 +1,7 @@
 CONSTANTS
   KPool <- KPoolC
   FPool <- FPoolC
+  BadPool <- BadPoolC
   MaxRes = 2
   Depth = 2
 SPECIFICATION Spec
